@@ -15,8 +15,9 @@ at a time, pairs of inputs (thorough), and all inputs at once — and the model 
           unit cases show nothing.  (Swapping the unit without rescaling would be the natural probe, but "90 year"
           of request duration does not terminate in reasonable time.)
 
-Oracle: ``snap.value_snapshot`` of the system equals the baseline's (relative 1e-9, absolute floor 1e-12 in base
-units).  A build / assignment that raises where the baseline does not is a violation as well
+Oracle: ``snap.value_snapshot`` of the system equals the baseline's (relative 1e-9; absolute floor 1e-12 in base
+units plus 1e-9 of the largest quantity of the same base unit held by the same object, so that the residue of a
+cumulative sum returning to zero is not mistaken for a physical difference — unit mistakes are factors >= 10).  A build / assignment that raises where the baseline does not is a violation as well
 (clause ``rejected-after-unit-change``).
 
 Reference model (kept boring): a table of *exact rational* conversion factors for the unit atoms of each family
@@ -38,6 +39,8 @@ import json
 import os
 import sys
 from fractions import Fraction
+
+import numpy as np
 
 from efmc import boot, engine, report, world as W, snap as S
 
@@ -229,6 +232,61 @@ def self_check_tables():
                 raise AssertionError(f"pint does not keep {a} as one atom: {atoms_of(a)}")
 
 
+# ------------------------------------------------------------------------------------------------ comparison
+def scales(snapshot):
+    """{(object name, base unit): largest magnitude held by that object in that base unit}."""
+    sc = {}
+
+    def walk(o, c):
+        if c[0] == "Q":
+            sc[(o, c[1])] = max(sc.get((o, c[1]), 0.0), abs(c[2]))
+        elif c[0] == "H" and len(c[4]):
+            sc[(o, c[1])] = max(sc.get((o, c[1]), 0.0), float(np.nanmax(np.abs(c[4]))))
+        elif c[0] == "D":
+            for _, x in c[1]:
+                walk(o, x)
+    for (o, _), c in snapshot.items():
+        walk(o, c)
+    return sc
+
+
+def close(a, b, obj, sc):
+    """snap.close with an absolute floor that follows the scale of the object's quantities of the same base unit
+    (1e-9 of the largest one in the baseline): a cumulative sum that returns to zero leaves a residue of the order of
+    eps x the operands, which is float noise and not a physical difference.  Unit mistakes are factors >= 10."""
+    if a[0] != b[0]:
+        return False
+    t = a[0]
+    if t == "Q":
+        floor = S.ATOL + S.RTOL * sc.get((obj, a[1]), 0.0)
+        return a[1] == b[1] and abs(a[2] - b[2]) <= floor + S.RTOL * max(abs(a[2]), abs(b[2]))
+    if t == "H":
+        if a[1] != b[1] or a[2] != b[2] or len(a[3]) != len(b[3]) or not np.array_equal(a[3], b[3]):
+            return False
+        x, y = a[4], b[4]
+        if np.isnan(x).any() or np.isnan(y).any():
+            return S.close(a, b)
+        floor = S.ATOL + S.RTOL * sc.get((obj, a[1]), 0.0)
+        return bool(np.all(np.abs(x - y) <= floor + S.RTOL * np.maximum(np.abs(x), np.abs(y))))
+    if t == "D":
+        return len(a[1]) == len(b[1]) and all(k1 == k2 and close(x, y, obj, sc)
+                                              for (k1, x), (k2, y) in zip(a[1], b[1]))
+    return S.close(a, b)
+
+
+def diff(s1, s2, sc):
+    """List of (key, rendered a, rendered b) for the keys whose values differ (keys are (object, attribute))."""
+    out = []
+    for k in sorted(set(s1) | set(s2), key=repr):
+        if k not in s1:
+            out.append((k, "<absent>", S.render(s2[k])))
+        elif k not in s2:
+            out.append((k, S.render(s1[k]), "<absent>"))
+        elif not close(s1[k], s2[k], k[0], sc):
+            out.append((k, S.render(s1[k]), S.render(s2[k])))
+    return out
+
+
 # ------------------------------------------------------------------------------------------------ execution
 _base = {}
 _disc = {}
@@ -253,7 +311,8 @@ def baseline(fam):
     if r is None:
         m = W.build(W.family(fam), closure_only=True)
         objs = S.system_objects(m.system)
-        r = {"snap": S.value_snapshot(m.system, objs), "rank": S.canonical_rank(objs),
+        snap0 = S.value_snapshot(m.system, objs)
+        r = {"snap": snap0, "scales": scales(snap0), "rank": S.canonical_rank(objs),
              "cls_attr": {(o.name, a): S.class_attr(o, a) for o in objs for a in o.calculated_attributes}}
         _base[fam] = r
     return r
@@ -309,18 +368,18 @@ def discontinuous(fam, obj, attr, cnt):
         for s in (1 + NUDGE, 1 - NUDGE):
             cnt["builds"] += 1
             fr = fresh(with_subs(w0, [[obj, attr, scaled(spec, s)]]))
-            if fr[0] != "ok" or S.diff(fr[1], baseline(fam)["snap"]):
+            if fr[0] != "ok" or diff(fr[1], baseline(fam)["snap"], baseline(fam)["scales"]):
                 r.append(fr)
         _disc[k] = r
     return r
 
 
-def is_one_sided_result(res, limits):
+def is_one_sided_result(res, limits, sc):
     """The observed result is what the real code gives for the input one ulp-ish to the left or right."""
     for lim in limits:
         if lim[0] != "ok" and res[0] != "ok":
             return True
-        if lim[0] == "ok" and res[0] == "ok" and not S.diff(res[1], lim[1]):
+        if lim[0] == "ok" and res[0] == "ok" and not diff(res[1], lim[1], sc):
             return True
     return False
 
@@ -363,6 +422,7 @@ def evaluate(fam, mode, w0, subs, cnt):
 def judge(fam, mode, w0, subs, cnt):
     """-> (outcome, [violations], digest)"""
     base = baseline(fam)["snap"]
+    sc = baseline(fam)["scales"]
     cls = lambda o: w0["objects"][o]["cls"]  # noqa: E731
     res = evaluate(fam, mode, w0, subs, cnt)
     if res[0] == "skip":
@@ -370,10 +430,10 @@ def judge(fam, mode, w0, subs, cnt):
     if mode == "probe":
         if res[0] != "ok":
             return "probe-refused", [], "raised:" + res[1]
-        d = S.diff(res[1], base)
+        d = diff(res[1], base, sc)
         return ("probe-differs" if d else "probe-inert"), [], S.digest(res[1], 8)
     cnt["compared"] += 1
-    d = S.diff(res[1], base) if res[0] == "ok" else None
+    d = diff(res[1], base, sc) if res[0] == "ok" else None
     if res[0] == "ok" and not d:
         return "equal", [], S.digest(res[1], 8)
 
@@ -405,7 +465,7 @@ def judge(fam, mode, w0, subs, cnt):
         o, a, _ = vsubs[0]
         orig = w0["objects"][o]["attrs"][a]
         ctrl = evaluate(fam, "live2", w0, [[o, a, orig]], cnt)
-        return ctrl[0] == "ok" and not S.diff(vres[1], ctrl[1])
+        return ctrl[0] == "ok" and not diff(vres[1], ctrl[1], sc)
 
     inexact = [s for s in subs if not same_physical_value(s[2], w0["objects"][s[0]]["attrs"][s[1]])]
     if not inexact:
@@ -413,7 +473,7 @@ def judge(fam, mode, w0, subs, cnt):
             return "stale-update-path(control-equal)", [], S.digest(res[1], 8)
         return "violation", [violation(subs, res, d)], None
     if len(subs) == 1:
-        if is_one_sided_result(res, discontinuous(fam, subs[0][0], subs[0][1], cnt)):
+        if is_one_sided_result(res, discontinuous(fam, subs[0][0], subs[0][1], cnt), sc):
             return "skipped_inexact_at_discontinuity", [], None
         if control_explains(subs, res):
             return "stale-update-path(control-equal)", [], S.digest(res[1], 8)
@@ -424,7 +484,7 @@ def judge(fam, mode, w0, subs, cnt):
         return "violation", [violation(subs, res, d)], None
     res2 = evaluate(fam, mode, w0, keep, cnt)
     cnt["compared"] += 1
-    d2 = S.diff(res2[1], base) if res2[0] == "ok" else None
+    d2 = diff(res2[1], base, sc) if res2[0] == "ok" else None
     if res2[0] == "ok" and not d2:
         return "equal-after-dropping-inexact-at-discontinuity", [], S.digest(res2[1], 8)
     return "violation", [violation(keep, res2, d2, note="inexact re-expressions at discontinuities left unchanged")], None
@@ -618,7 +678,9 @@ def main(tier):
         "re-expressed magnitude = correctly rounded float of the exact rational value (factor table validated against "
         "pint at start-up); inexact re-expressions (<= 1 ulp) are not judged where the real code is discontinuous at "
         "the input (nudge +-1e-13 changes the result)",
-        "tolerance rel 1e-9 / abs 1e-12 in base units; ids and set order fixed by the harness seams",
+        "tolerance rel 1e-9; absolute floor 1e-12 in base units + 1e-9 of the largest quantity of the same base unit held by "
+        "the same object in the baseline (cancellation residues of cumulative sums); ids and set order fixed by the "
+        "harness seams",
         "live2 divergences reproduced by the same two assignments in the original unit are attributed to the update "
         "path (C01), not to units"])
 
